@@ -154,7 +154,7 @@ Section Recover.
     destruct (take_blob T hc (rs_table T st) (n_targets n)) as [b t'] eqn:Etb.
     pose proof (C01Build.take_blob_fst T hc _ _ _ _ Etb) as Hfst.
     assert (clock_ok teqb wc) as Hk by apply Hinv.
-    destruct (InvProofs.take_blob_ok T teqb hc _ _ _ _ _ Hk Htbl Etb) as [Hb Ht'].
+    destruct (InvProofs.take_blob_ok T teqb hc teqb_spec _ _ _ _ _ Htbl Etb) as [Hb Ht'].
     assert (read_history T teqb hr wc (n_rule n) = Some h) as Erh.
     { unfold read_history. rewrite Hhist, Hh. reflexivity. }
     destruct (all_some (map (received T (rs_leaf_sent T st) (rs_node_sent T st)) (n_source_indices n)))
@@ -297,7 +297,7 @@ Section Recover.
     assert (get_nodes T w2' rp goal = Ok pack) as Hg' by (rewrite <- Hg; apply get_nodes_content; apply Hca).
     pose proof (get_nodes_plan_wf T _ _ _ _ Hg) as Hwf.
     rewrite (build_eq T teqb hc hl hr), Hi, Hg'. cbv zeta.
-    destruct (st_leaves_inv1 T teqb hc w2' t pack Hinv' Ht1) as [Hw Htbl Hnn Hcc Hleaf Hfst Herr Hq].
+    destruct (st_leaves_inv1 T teqb hc teqb_spec w2' t pack Hinv' Ht1) as [Hw Htbl Hnn Hcc Hleaf Hfst Herr Hq].
     destruct Hq as [Hal Hqr]; [intros l Hin; rewrite Hca; destruct (HEl l Hin) as [H1 H2]; rewrite H2; exact H1|].
     assert (rs_inv w2' (st_leaves T teqb hc w2' t pack)) as Hrs0.
     { apply (InvProofs.run_leaves_inv T teqb hc teqb_spec w2' (p_leaves pack) _ Hinv').
